@@ -1,66 +1,4 @@
-// ---- prelude/wit_spec.rs : C05 at tree level - every cached witness satisfies, up to the containment tolerance, every half-space of its node's path ----
-// ---------------------------------------------------------------- specification
-// the point w satisfies, up to the tolerance, the half-space reported for the edge (decision f --l--> child): the rows of f for label 1, the negated rows
-// for label 0 (this is the polytope PolyhedraGen / polyhedral_path_characterization report for the edge, see edge_poly)
-pub open spec fn wit_edge(f: AffFunc, l: int, w: V) -> bool {
-    let s = if l == 1 { 1real } else { 0real - 1real };
-    tol_sat(mscale(f.mat.m(), s), vscale(f.bias.v(), s), w)
-}
-// the edge leaving p under label l lies on the path from the root to c (its target is c or a proper ancestor of c)
-pub open spec fn edge_above<const K: usize>(a: AArena<K>, p: usize, l: int, c: usize) -> bool {
-    a.dom().contains(p) && 0 <= l < K && a[p].children[l] is Some && (a[p].children[l].unwrap() == c || desc(a, a[p].children[l].unwrap(), c))
-}
-pub open spec fn wit_on_path<const K: usize>(a0: AArena<K>, c: usize, w: V) -> bool {
-    forall|p: usize, l: int| #[trigger] edge_above(a0, p, l, c) ==> wit_edge(a0[p].value.aff, l, w)
-}
-pub open spec fn wits_ok<const K: usize>(a0: AArena<K>, c: usize, st: NodeState) -> bool {
-    st matches NodeState::FeasibleWitness(v) ==> forall|i: int| 0 <= i < v@.len() ==> wit_on_path(a0, c, (#[trigger] v@[i]).v())
-}
-// the cache contract for witnesses: the witnesses stored in arena a are right for the paths of arena a0 (a0 == a: the property itself;
-// during the elimination: a0 is the tree at entry, whose paths are supersets of the current ones)
-#[verifier::opaque]
-pub open spec fn wit_inv<const K: usize>(a0: AArena<K>, a: AArena<K>) -> bool {
-    forall|c: usize| #![trigger a[c].value] a.dom().contains(c) ==> wits_ok(a0, c, a[c].value.state)
-}
-// the current tree is the original one with decisions spliced out and subtrees removed: every current edge (p --l--> k) comes from the original edge
-// leaving p under l, whose target is k or an ancestor of k
-#[verifier::opaque]
-pub open spec fn emb_inv<const K: usize>(a0: AArena<K>, a: AArena<K>) -> bool {
-    forall|p: usize, l: int| #![trigger a[p].children[l]] a.dom().contains(p) && 0 <= l < K && a[p].children[l] is Some ==> edge_above(a0, p, l, a[p].children[l].unwrap())
-}
-
-// ---------------------------------------------------------------- descendants
-pub proof fn lemma_desc_trans<const K: usize>(a: AArena<K>, x: usize, y: usize, z: usize, f: nat)
-    requires desc(a, x, y), is_desc(a, y, z, f)
-    ensures desc(a, x, z)
-    decreases f
-{
-    let p = a[z].parent.unwrap();
-    if p != y { lemma_desc_trans(a, x, y, p, (f - 1) as nat); }
-    lemma_desc_via_parent(a, x, z);
-}
-// an edge above k is above everything below k
-pub proof fn lemma_edge_above_down<const K: usize>(a: AArena<K>, p: usize, l: int, k: usize, c: usize)
-    requires edge_above(a, p, l, k), k == c || desc(a, k, c)
-    ensures edge_above(a, p, l, c)
-{
-    let k0 = a[p].children[l].unwrap();
-    if k != c && k0 != k {
-        let f = choose|f: nat| is_desc(a, k, c, f);
-        lemma_desc_trans(a, k0, k, c, f);
-    }
-}
-// the source of an edge above c is a proper ancestor of c
-pub proof fn lemma_edge_above_desc<const K: usize>(a: AArena<K>, p: usize, l: int, c: usize)
-    requires edge_above(a, p, l, c), kids_ok(a)
-    ensures desc(a, p, c)
-{
-    let k0 = a[p].children[l].unwrap();
-    assert(a.dom().contains(k0) && a[k0].parent == Some(p));
-    lemma_desc_child(a, p, k0);
-    if k0 != c { let f = choose|f: nat| is_desc(a, k0, c, f); lemma_desc_trans(a, p, k0, c, f); }
-}
-
+// ---- prelude/wit_spec.rs : the witness invariant through infeasible_elimination (specification: prelude/wit_core_spec.rs) ----
 // ---------------------------------------------------------------- witnesses along a path
 // no half-space above the root
 pub proof fn lemma_wit_root<const K: usize>(a0: AArena<K>, root: usize, w: V)
@@ -178,40 +116,6 @@ pub proof fn lemma_wit_write<const K: usize>(a0: AArena<K>, a1: AArena<K>, a2: A
         if c != n { assert(a2[c] == a1[c]); assert(wits_ok(a0, c, a1[c].value.state)); }
     }
 }
-// values of surviving nodes are untouched (forward_if_redundant: pruned_step; try_remove_child)
-pub proof fn lemma_wit_kept<const K: usize>(a0: AArena<K>, a1: AArena<K>, a2: AArena<K>)
-    requires wit_inv(a0, a1), a2.dom().subset_of(a1.dom()), forall|i: usize| #![trigger a2[i]] a2.dom().contains(i) ==> a2[i].value == a1[i].value
-    ensures wit_inv(a0, a2)
-{
-    reveal(wit_inv);
-    assert forall|c: usize| #![trigger a2[c].value] a2.dom().contains(c) implies wits_ok(a0, c, a2[c].value.state) by {
-        assert(a1.dom().contains(c)); assert(a2[c].value == a1[c].value); assert(wits_ok(a0, c, a1[c].value.state));
-    }
-}
-pub proof fn lemma_wit_removed<const K: usize>(a0: AArena<K>, a1: AArena<K>, a2: AArena<K>, parent: usize, label: usize, e: bool)
-    requires wit_inv(a0, a1), remove_child_post(a1, a2, parent, label, e)
-    ensures wit_inv(a0, a2)
-{
-    if !e {
-        assert forall|i: usize| #![trigger a2[i]] a2.dom().contains(i) implies a2[i].value == a1[i].value by { if i != parent { assert(a2[i] == a1[i]); } }
-        assert(a2.dom().subset_of(a1.dom()));
-        lemma_wit_kept(a0, a1, a2);
-    }
-}
-pub proof fn lemma_emb_init<const K: usize>(a0: AArena<K>)
-    ensures emb_inv(a0, a0)
-{ reveal(emb_inv); }
-// child slots only change to None or stay
-pub proof fn lemma_emb_shrink<const K: usize>(a0: AArena<K>, a1: AArena<K>, a2: AArena<K>)
-    requires emb_inv(a0, a1), a2.dom().subset_of(a1.dom()),
-        forall|p: usize, l: int| #![trigger a2[p].children[l]] a2.dom().contains(p) && 0 <= l < K && a2[p].children[l] is Some ==> a2[p].children[l] == a1[p].children[l]
-    ensures emb_inv(a0, a2)
-{
-    reveal(emb_inv);
-    assert forall|p: usize, l: int| #![trigger a2[p].children[l]] a2.dom().contains(p) && 0 <= l < K && a2[p].children[l] is Some implies edge_above(a0, p, l, a2[p].children[l].unwrap()) by {
-        assert(a1.dom().contains(p)); assert(a1[p].children[l] == a2[p].children[l]);
-    }
-}
 pub proof fn lemma_emb_write<const K: usize>(a0: AArena<K>, a1: AArena<K>, a2: AArena<K>, n: usize)
     requires emb_inv(a0, a1), value_written(a1, a2, n)
     ensures emb_inv(a0, a2)
@@ -220,18 +124,6 @@ pub proof fn lemma_emb_write<const K: usize>(a0: AArena<K>, a1: AArena<K>, a2: A
         if p != n { assert(a2[p] == a1[p]); }
     }
     lemma_emb_shrink(a0, a1, a2);
-}
-pub proof fn lemma_emb_removed<const K: usize>(a0: AArena<K>, a1: AArena<K>, a2: AArena<K>, parent: usize, label: usize, e: bool)
-    requires emb_inv(a0, a1), remove_child_post(a1, a2, parent, label, e)
-    ensures emb_inv(a0, a2)
-{
-    if !e {
-        assert forall|p: usize, l: int| #![trigger a2[p].children[l]] a2.dom().contains(p) && 0 <= l < K && a2[p].children[l] is Some implies a2[p].children[l] == a1[p].children[l] by {
-            if p != parent { assert(a2[p] == a1[p]); } else { assert(a2[p].children@[l] == a1[p].children@.update(label as int, None)[l]); }
-        }
-        assert(a2.dom().subset_of(a1.dom()));
-        lemma_emb_shrink(a0, a1, a2);
-    }
 }
 pub proof fn lemma_emb_removed_set<const K: usize>(a0: AArena<K>, a1: AArena<K>, am: AArena<K>, p: usize, ls: ISet<int>)
     requires emb_inv(a0, a1), removed_set(a1, am, p, ls)
@@ -243,37 +135,6 @@ pub proof fn lemma_emb_removed_set<const K: usize>(a0: AArena<K>, a1: AArena<K>,
     }
     assert(am.dom().subset_of(a1.dom()));
     lemma_emb_shrink(a0, a1, am);
-}
-// splicing out p: the child c of p now hangs at p's slot under p's parent g - the original edge of that slot had p (at or) below its target, and c below p
-pub proof fn lemma_emb_merged<const K: usize>(a0: AArena<K>, am: AArena<K>, a2: AArena<K>, p: usize, f: usize, gl: int)
-    requires emb_inv(a0, am), merged(am, a2, p, f, gl), kids_ok(a0), kids_ok(am), parents_ok(am)
-    ensures emb_inv(a0, a2)
-{
-    reveal(emb_inv);
-    let c = am[p].children[f as int].unwrap();
-    let g = am[p].parent.unwrap();
-    assert(am.dom().contains(g));
-    assert(am.dom().contains(c) && am[c].parent == Some(p));
-    assert forall|q: usize, l: int| #![trigger a2[q].children[l]] a2.dom().contains(q) && 0 <= l < K && a2[q].children[l] is Some implies edge_above(a0, q, l, a2[q].children[l].unwrap()) by {
-        if q == g && l == gl {
-            assert(a2[g].children@[gl] == Some(c));
-            assert(am[g].children[gl] == Some(p));
-            assert(edge_above(a0, g, gl, p));
-            assert(am[p].children[f as int] == Some(c));
-            assert(edge_above(a0, p, f as int, c));
-            lemma_edge_above_desc(a0, p, f as int, c);
-            lemma_edge_above_down(a0, g, gl, p, c);
-        } else if q == g {
-            assert(a2[g].children@[l] == am[g].children@[l]);
-            assert(am[g].children[l] is Some);
-        } else if q == c {
-            assert(a2[c].children == am[c].children);
-            assert(am[c].children[l] is Some);
-        } else {
-            assert(a2[q] == am[q]);
-            assert(am[q].children[l] is Some);
-        }
-    }
 }
 pub proof fn lemma_emb_forward(a0: AArena<2>, a1: AArena<2>, a2: AArena<2>, root: usize, p: usize)
     requires emb_inv(a0, a1), kids_ok(a0), wf_at(a1, Some(root)), a1.dom().contains(p), forward_post(a1, a2, p, Some(root))
@@ -295,48 +156,6 @@ pub proof fn lemma_emb_forward(a0: AArena<2>, a1: AArena<2>, a2: AArena<2>, root
 }
 
 // ---------------------------------------------------------------- from the original paths to the paths of the resulting tree
-// a current ancestor is an original ancestor
-pub proof fn lemma_emb_desc<const K: usize>(a0: AArena<K>, a: AArena<K>, k: usize, c: usize, f: nat)
-    requires emb_inv(a0, a), parents_ok(a), kids_ok(a0), is_desc(a, k, c, f)
-    ensures desc(a0, k, c)
-    decreases f
-{
-    reveal(emb_inv);
-    let pp = a[c].parent.unwrap();
-    assert(a.dom().contains(pp));
-    let l = choose|l: int| 0 <= l < K && #[trigger] a[pp].children[l] == Some(c);
-    assert(edge_above(a0, pp, l, c));
-    lemma_edge_above_desc(a0, pp, l, c);
-    if pp != k {
-        lemma_emb_desc(a0, a, k, pp, (f - 1) as nat);
-        let f2 = choose|f2: nat| is_desc(a0, pp, c, f2);
-        lemma_desc_trans(a0, k, pp, c, f2);
-    }
-}
-// every half-space on the path of c in the resulting tree is one of the half-spaces on its path in the original tree (same decision, same label)
-pub proof fn lemma_wit_final<const K: usize>(a0: AArena<K>, a: AArena<K>)
-    requires wit_inv(a0, a), emb_inv(a0, a), parents_ok(a), kids_ok(a0), a.dom().subset_of(a0.dom()),
-        forall|i: usize| #![trigger a[i].value] a.dom().contains(i) ==> a[i].value.aff == a0[i].value.aff,
-    ensures wit_inv(a, a)
-{
-    reveal(wit_inv);
-    assert forall|c: usize| #![trigger a[c].value] a.dom().contains(c) implies wits_ok(a, c, a[c].value.state) by {
-        assert(wits_ok(a0, c, a[c].value.state));
-        if let NodeState::FeasibleWitness(v) = a[c].value.state {
-            assert forall|i: int| 0 <= i < v@.len() implies wit_on_path(a, c, (#[trigger] v@[i]).v()) by {
-                let w = v@[i].v();
-                assert(wit_on_path(a0, c, w));
-                assert forall|p: usize, l: int| #[trigger] edge_above(a, p, l, c) implies wit_edge(a[p].value.aff, l, w) by {
-                    let k = a[p].children[l].unwrap();
-                    assert(edge_above(a0, p, l, k)) by { reveal(emb_inv); }
-                    if k != c { let f = choose|f: nat| is_desc(a, k, c, f); lemma_emb_desc(a0, a, k, c, f); }
-                    lemma_edge_above_down(a0, p, l, k, c);
-                    assert(a[p].value.aff == a0[p].value.aff);
-                }
-            }
-        }
-    }
-}
 // ---------------------------------------------------------------- the same steps under the entry hypothesis "the caches of the original tree are right"
 // (one opaque predicate and hypothesis-free lemma calls keep the loop body of infeasible_elimination free of case splits)
 #[verifier::opaque]
